@@ -13,6 +13,12 @@
 //    sum usr (or refuses and leaves the part alone) and the joined list still satisfies all of the above.
 #include "vp.hpp"
 #include "mpt_plot_c.hpp"
+#define protected public
+#define private public
+#include "layout.h"
+#undef protected
+#undef private
+#include <cmath>
 
 #include <cfloat>
 #include <memory>
@@ -335,6 +341,48 @@ struct RangeTransform : public transform {
     return lp;
   }
 };
+// The library's own graph transformation (layout::graph::transform3, what layout::graph::transform() hands to polyline::set):
+// per dimension no limit, a linear limit or a logarithmic one. Visibility rule taken from transform3::part(): no
+// TransformLimit flag -> everything visible; linear -> limit.min <= v <= limit.max; TransformLg -> the limit counts decades,
+// visible is 10^floor(limit.min) <= v <= 10^ceil(limit.max) compared on the raw values (the fractions stay the ones
+// mpt_linepart_linear computes for that range: the log10() of a fraction in (0,1) is negative and set_cut()/set_trim()
+// refuse it). part() is watched from a subclass: a call that consumes nothing would make linepart::array::apply() spin
+// (and allocate) for ever, so it is answered with a part that moves on and reported after apply() has returned.
+struct Graph3 : public layout::graph::transform3 {
+  mutable bool stalled = false, overrun = false;
+  mutable long bad_len = 0;
+  mutable linepart bad;
+  Range effective[3] = {Range(0, 1), Range(0, 1), Range(0, 1)};
+  const Range *eff[3] = {0, 0, 0};
+  linepart part(unsigned dim, const double *val, int len) const override {
+    linepart p = layout::graph::transform3::part(dim, val, len);
+    long lim = len > 65535 ? 65535 : len;
+    if (len > 0 && (!p.raw || p.raw > lim || p.usr > lim)) {
+      if (!stalled && !overrun) { bad = p; bad_len = len; }
+      if (!p.raw) stalled = true; else overrun = true;
+      p = linepart((int)lim);
+    }
+    return p;
+  }
+  // dims used, per dimension: limit (0 = none) and logarithmic flag
+  void setup(int dims, const Range *const *limit, const bool *lg) {
+    for (int i = 0; i < 3; i++) {
+      _dim[i].to = i >= dims ? fpoint(0, 0) : i == 0 ? fpoint(1, 0) : i == 1 ? fpoint(0, 1) : fpoint(0.5f, 0.5f);
+      _dim[i]._flags &= ~(uint32_t)(TransformLimit | TransformLg);
+      eff[i] = 0;
+      if (i >= dims || !limit[i]) continue;
+      _dim[i]._flags |= TransformLimit;
+      _dim[i].limit = *limit[i];
+      effective[i] = *limit[i];
+      if (lg && lg[i]) {
+        _dim[i]._flags |= TransformLg;
+        effective[i] = Range(exp10(floor(limit[i]->min)), exp10(ceil(limit[i]->max)));
+      }
+      eff[i] = &effective[i];
+    }
+  }
+};
+
 // What polyline makes of a list of parts (apply_data(), polyline::iterator, polyline::part): part k reads the raw values
 // from the sum of the earlier `raw`, owns `usr` consecutive points of the point array, and part::points() — the real
 // consumer, called here — leaves out the first / last of them when _cut / _trim is set (that point is the place where the
@@ -416,9 +464,11 @@ static void check_end_fractions(Ctx &c, const char *stage, int dims, const std::
 
 // linepart::array::apply() dimension by dimension the way polyline::set does it; `preset`: start from set(N)
 // (polyline::set) or from an empty array
-static void apply_scenario(Ctx &c, int dims, const Range *const *ranges, const std::vector<double> *d, bool preset) {
-  RangeTransform tr;
-  for (int i = 0; i < dims; i++) tr.r.push_back(ranges[i]);
+static void apply_scenario(Ctx &c, int dims, const Range *const *ranges, const std::vector<double> *d, bool preset, Graph3 *graph = 0) {
+  RangeTransform own;
+  for (int i = 0; i < dims; i++) own.r.push_back(ranges[i]);
+  const transform &tr = graph ? static_cast<const transform &>(*graph) : static_cast<const transform &>(own);
+  if (graph) { c.label("cxx-apply:graph-transform3"); c.logf("transformation: layout::graph::transform3"); }
   size_t N = d[0].size();
   if (!N) return;
   linepart::array vis;
@@ -427,26 +477,30 @@ static void apply_scenario(Ctx &c, int dims, const Range *const *ranges, const s
   std::vector<uint8_t> visible(N, 1);
   for (int i = 0; i < dims; i++) {
     if (c.verbose()) {
-      if (tr.r[i]) c.logf("dim %d: range [%.17g, %.17g] N=%zu", i, tr.r[i]->min, tr.r[i]->max, N);
+      if (ranges[i]) c.logf("dim %d: range [%.17g, %.17g] N=%zu", i, ranges[i]->min, ranges[i]->max, N);
       else c.logf("dim %d: no range N=%zu", i, N);
       for (size_t k = 0, shown = 0; k < N && shown < 120; k++)
-        if (k < 12 || k + 12 >= N || d[i][k] != d[i][k - 1] || (k + 1 < N && d[i][k] != d[i][k + 1])) { c.logf("  [%zu] %.17g %s", k, d[i][k], cls(d[i][k], tr.r[i])); ++shown; }
+        if (k < 12 || k + 12 >= N || d[i][k] != d[i][k - 1] || (k + 1 < N && d[i][k] != d[i][k + 1])) { c.logf("  [%zu] %.17g %s", k, d[i][k], cls(d[i][k], ranges[i])); ++shown; }
     }
     Slice s(d[i].data(), N);
     bool ok = vis.apply(tr, i, span<const double>(s.p, (long)N));
+    if (graph) {
+      VP_CHECK(c, !graph->stalled, "no-progress", "transform3::part(dim %d, %ld values) consumes nothing: {raw %u usr %u cut %u trim %u}", i, graph->bad_len, graph->bad.raw, graph->bad.usr, graph->bad._cut, graph->bad._trim);
+      VP_CHECK(c, !graph->overrun, "raw-exceeds-input", "transform3::part(dim %d, %ld values) returns {raw %u usr %u}", i, graph->bad_len, graph->bad.raw, graph->bad.usr);
+    }
     VP_CHECK(c, ok, "cxx-apply-refused", "linepart::array::apply(dim %d, %zu points) failed", i, N);
     std::vector<linepart> parts(vis.begin(), vis.end());
     for (size_t k = 0; k < parts.size() && k < 64; k++) c.logf("  after dim %d: part %zu raw %u usr %u cut %u trim %u", i, k, parts[k].raw, parts[k].usr, parts[k]._cut, parts[k]._trim);
     // first coordinate: the complete single-run oracle incl. the fractions (later ones are merged heuristically by the library)
-    if (i == 0) check_parts(c, "cxx-apply", d[0], tr.r[0], parts);
-    for (size_t k = 0; k < N; k++) if (!in_range(d[i][k], tr.r[i])) visible[k] = 0;
+    if (i == 0) check_parts(c, "cxx-apply", d[0], ranges[0], parts);
+    for (size_t k = 0; k < N; k++) if (!in_range(d[i][k], ranges[i])) visible[k] = 0;
     check_drawn(c, i ? "cxx-apply (2 dimensions)" : "cxx-apply", N, parts, visible);
     if (i) check_end_fractions(c, "cxx-apply (2 dimensions)", i + 1, d, ranges, parts);
     c.count("cxx-apply:parts", parts.size());
     for (const linepart &lp : parts) if (lp._cut || lp._trim) { c.label("cxx-apply:crossing"); c.nontrivial(); break; }
     if (i) for (const linepart &lp : parts) if (lp.usr && lp.usr < lp.raw && lp._trim) { c.label("cxx-apply:2-dim-trim-before-skipped"); break; }
   }
-  c.label(dims == 2 ? "cxx-apply:2-dim" : "cxx-apply:1-dim");
+  c.label(dims == 3 ? "cxx-apply:3-dim" : dims == 2 ? "cxx-apply:2-dim" : "cxx-apply:1-dim");
   if (!preset) c.label("cxx-apply:fresh-array");
   if (N > 65533) { c.label("cxx-apply:multi-chunk"); c.nontrivial(); }
 }
@@ -463,7 +517,40 @@ static void run_cxx_apply(Ctx &c) {
   }
   // no draw of its own (committed inputs keep their decoding): one coordinate always starts from set(N)
   bool preset = dims == 1 || ((c.hash() >> 11) & 1);
-  apply_scenario(c, dims, ranges, d, preset);
+  // every second case goes through the library's graph transformation with the same limits (no draw either)
+  Graph3 g;
+  bool lib = (c.hash() >> 13) & 1;
+  if (lib) g.setup(dims, ranges, 0);
+  apply_scenario(c, dims, ranges, d, preset, lib ? &g : 0);
+}
+
+// ---- the graph transformation with generated axis settings: 1..3 dimensions, each without limit, with a linear or with a
+// logarithmic limit
+static void run_cxx_graph(Ctx &c) {
+  int dims = 1 + (int)c.weighted({3, 4, 2});
+  Range lim[3] = {Range(0, 1), Range(0, 1), Range(0, 1)};
+  const Range *limit[3] = {0, 0, 0};
+  bool lg[3] = {false, false, false};
+  std::vector<double> d[3];
+  bool longrun = c.chance(10), preset = c.flip();
+  Graph3 g;
+  for (int i = 0; i < dims; i++) {
+    switch (c.weighted({2, 4, 3})) {
+      case 0: c.label("graph:no-limit"); break;
+      case 1: limit[i] = draw_range(c, lim[i]); c.label("graph:linear-limit"); break;
+      default: {
+        double lo = (double)c.range(0, 8) - 4 + (c.flip() ? 0.5 : 0), hi = lo + (double)c.range(0, 3) + (c.flip() ? 0.25 : 0);
+        lim[i] = Range(lo, hi);
+        limit[i] = &lim[i];
+        lg[i] = true;
+        c.label("graph:log-limit");
+        break;
+      }
+    }
+  }
+  g.setup(dims, limit, lg);
+  for (int i = 0; i < dims; i++) d[i] = draw_data(c, g.eff[i], longrun, i ? d[0].size() : 0);
+  apply_scenario(c, dims, g.eff, d, preset, &g);
 }
 
 // ---- enumerated: two coordinates, x over {below, inside, above}, y over {inside, above}, range [1,3] for both
@@ -511,8 +598,15 @@ static void run_cxx_longenum(Ctx &c) {
     size_t start = 65531 + (hole - 1) / 3, cnt = 1 + (hole - 1) % 3;
     for (size_t k = start; k < N && k < start + cnt; k++) d[i][k] = 4.0;
   }
+  // trailing draw: 0 harness transformation, 1 graph transformation with both limits, 2 / 3 graph transformation without a
+  // limit for the first / second coordinate
+  size_t kind = c.pick(4);
+  Graph3 g;
+  if (kind == 2) ranges[0] = 0;
+  if (kind == 3) ranges[1] = 0;
+  if (kind) g.setup(2, ranges, 0);
   c.label("enum:cxx-apply-2-dim-long");
-  apply_scenario(c, 2, ranges, d, preset);
+  apply_scenario(c, 2, ranges, d, preset, kind ? &g : 0);
   c.nontrivial();
 }
 
@@ -982,6 +1076,7 @@ static void run(Ctx &c) {
   uint8_t sel = c.u8();
   if (sel == 0xfb) return run_apply_data_noparts(c);
   if (sel >= 150 && sel < 176) return run_history(c);
+  if (sel >= 140 && sel < 150) return run_cxx_graph(c);
   if (sel >= 206 && sel < 216) return run_cxx_set(c);
   if (sel >= 176 && sel < 206) return run_cxx_apply(c);
   if (sel == 0xff) return run_alphabet(c);
@@ -1052,8 +1147,10 @@ static void noparts_make(uint64_t idx, int, std::vector<uint8_t> &out) {
   out.push_back((uint8_t)(idx % 10));
   out.push_back((uint8_t)(idx / 10));
 }
-static uint64_t cxx2long_count(int tier) { return tier ? 2 * 5 * 22 * 22 : 2 * 2 * 15 * 15; }
+static uint64_t cxx2long_count(int tier) { return 4 * (tier ? 2 * 5 * 22 * 22 : 2 * 2 * 15 * 15); }
 static void cxx2long_make(uint64_t idx, int tier, std::vector<uint8_t> &out) {
+  uint8_t kind = (uint8_t)(idx % 4); idx /= 4;
+  struct Tail { std::vector<uint8_t> &o; uint8_t k; ~Tail() { o.push_back(k); } } tail{out, kind};
   out.clear();
   out.push_back(0xfc);
   out.push_back((uint8_t)(idx % 2)); idx /= 2;
@@ -1092,7 +1189,7 @@ static Target t = {
      {"sequences len<=6 (8) over 5 classes x 1..3 points per call", chunk_count, chunk_make},
      {"run lengths 65533..65537 x 81 head/body/tail patterns", long_count, long_make},
      {"two coordinates: (x,y) sequences len<=6 (7) over {below,inside,above}x{inside,above}, from set(N) and from an empty array", cxx2_count, cxx2_make},
-     {"two coordinates around the chunk limit: N 65534..65538 (quick: 65535, 65537) x (no / one run of 1..3 (quick: 1 or 3) points outside from 65531..65537) per coordinate, from set(N) and from an empty array", cxx2long_count, cxx2long_make},
+     {"two coordinates around the chunk limit: N 65534..65538 (quick: 65535, 65537) x (no / one run of 1..3 (quick: 1 or 3) points outside from 65531..65537) per coordinate, from set(N) and from an empty array, x 4 transformations (harness; layout::graph::transform3 with both limits / without limit for x / for y)", cxx2long_count, cxx2long_make},
      {"two coordinates with different crossing fractions: (x,y) sequences len<=3 (4) over 5 x 5 values, from set(N) and from an empty array", frac_count, frac_make},
      {"apply_data without part records: 10 point counts up to 3 x 65535 x 1..2 coordinates", noparts_count, noparts_make}},
     0,
